@@ -518,3 +518,90 @@ for _name, (_builder, _variants) in CLASSES.items():
                             yield ("same hash regardless of insertion order", T(res["hash(x)"].value) == T(res["hash(y)"].value))
                     else:
                         yield ("unequal when a discrete attribute differs", z3.And(z3.Not(e), z3.Not(e2)))
+
+
+# ------------------------------------------------------------------------------ containers of different size are different
+
+
+def _ks(t, x=0.0):
+    return st.KSState(time_step=t, position=np.array([x + t, 1.0]), orientation=0.25, velocity=2.0, steering_angle=0.0)
+
+
+def _init0():
+    return st.InitialState(time_step=0, position=np.array([0.0, 1.0]), orientation=0.25, velocity=2.0, yaw_rate=0.0, slip_angle=0.0, acceleration=0.0)
+
+
+def _lane(lid, n=2, **kw):
+    xs = [5.0 * k for k in range(n)]
+    return Lanelet(np.array([[x, 1.0] for x in xs]), np.array([[x, 0.5] for x in xs]), np.array([[x, 0.0] for x in xs]), lid, **kw)
+
+
+def _size_pairs():
+    """(class name, shorter object, longer object): the longer one has the shorter one as a prefix / subset"""
+    rect, circ = Rectangle(4.0, 2.0), Circle(1.0)
+    tri = [[0.0, 0.0], [4.0, 0.0], [4.0, 3.0]]
+    yield "Trajectory (3 vs 2 states)", Trajectory(1, [_ks(1), _ks(2)]), Trajectory(1, [_ks(1), _ks(2), _ks(3)])
+    yield "TrajectoryPrediction (3 vs 2 states)", TrajectoryPrediction(Trajectory(1, [_ks(1), _ks(2)]), rect), TrajectoryPrediction(Trajectory(1, [_ks(1), _ks(2), _ks(3)]), rect)
+    yield "DynamicObstacle (prediction 3 vs 2 states)", (DynamicObstacle(7, ObstacleType.CAR, rect, _init0(), TrajectoryPrediction(Trajectory(1, [_ks(1), _ks(2)]), rect)),
+                                                         DynamicObstacle(7, ObstacleType.CAR, rect, _init0(), TrajectoryPrediction(Trajectory(1, [_ks(1), _ks(2), _ks(3)]), rect)))
+    yield "SetBasedPrediction (2 vs 1 occupancies)", SetBasedPrediction(1, [Occupancy(1, rect)]), SetBasedPrediction(1, [Occupancy(1, rect), Occupancy(2, circ)])
+    yield "ShapeGroup (2 vs 1 shapes)", ShapeGroup([rect]), ShapeGroup([rect, circ])
+    yield "Polygon (4 vs 3 vertices)", Polygon(np.array(tri)), Polygon(np.array(tri + [[0.0, 3.0]]))
+    yield "Lanelet (3 vs 2 vertices)", _lane(1, 2), _lane(1, 3)
+    yield "Lanelet (2 vs 1 successors)", _lane(1, successor=[2]), _lane(1, successor=[2, 3])
+    yield "Lanelet (2 vs 1 lanelet types)", _lane(1, lanelet_type={LaneletType.URBAN}), _lane(1, lanelet_type={LaneletType.URBAN, LaneletType.BUS_LANE})
+    yield "GoalRegion (2 vs 1 goal states)", (GoalRegion([st.CustomState(time_step=Interval(1, 5))]),
+                                              GoalRegion([st.CustomState(time_step=Interval(1, 5)), st.CustomState(time_step=Interval(2, 6))]))
+    mk_el = lambda s, d: TrafficLightCycleElement(s, d)
+    yield "TrafficLightCycle (3 vs 2 elements)", (TrafficLightCycle([mk_el(TrafficLightState.RED, 3), mk_el(TrafficLightState.GREEN, 4)], 0, True),
+                                                 TrafficLightCycle([mk_el(TrafficLightState.RED, 3), mk_el(TrafficLightState.GREEN, 4), mk_el(TrafficLightState.YELLOW, 1)], 0, True))
+    yield "TrafficSign (2 vs 1 elements)", (TrafficSign(5, [TrafficSignElement(TrafficSignIDGermany.STOP)], {1}, np.array([1.0, 1.0])),
+                                           TrafficSign(5, [TrafficSignElement(TrafficSignIDGermany.STOP), TrafficSignElement(TrafficSignIDGermany.YIELD)], {1}, np.array([1.0, 1.0])))
+    yield "TrafficSignElement (2 vs 1 additional values)", TrafficSignElement(TrafficSignIDGermany.MAX_SPEED, ["10"]), TrafficSignElement(TrafficSignIDGermany.MAX_SPEED, ["10", "20"])
+    inc = lambda i, l: IntersectionIncomingElement(i, {l}, set(), {9}, set(), None)
+    yield "Intersection (2 vs 1 incomings)", Intersection(3, [inc(4, 1)], {8}), Intersection(3, [inc(4, 1), inc(5, 2)], {8})
+    yield "IntersectionIncomingElement (2 vs 1 incoming lanelets)", IntersectionIncomingElement(4, {1}, set(), {9}, set(), None), IntersectionIncomingElement(4, {1, 2}, set(), {9}, set(), None)
+    init = st.InitialState(time_step=0, position=np.array([0.0, 0.0]), orientation=0.0, velocity=0.0, yaw_rate=0.0, slip_angle=0.0, acceleration=0.0)
+    pp = lambda i: PlanningProblem(i, init, GoalRegion([st.CustomState(time_step=Interval(1, 5))]))
+    yield "PlanningProblemSet (2 vs 1 problems)", PlanningProblemSet([pp(1)]), PlanningProblemSet([pp(1), pp(2)])
+    n1, n2 = LaneletNetwork.create_from_lanelet_list([_lane(1)]), LaneletNetwork.create_from_lanelet_list([_lane(1), _lane(2)])
+    yield "LaneletNetwork (2 vs 1 lanelets)", n1, n2
+    d1 = DynamicObstacle(7, ObstacleType.CAR, rect, _init0(), None, None, None, None, [SignalState(time_step=1, horn=True)])
+    d2 = DynamicObstacle(7, ObstacleType.CAR, rect, _init0(), None, None, None, None, [SignalState(time_step=1, horn=True), SignalState(time_step=2, horn=False)])
+    yield "DynamicObstacle (2 vs 1 signal states)", d1, d2
+
+
+for _item in _size_pairs():
+    _name = _item[0]
+    _short, _long = _item[1:] if len(_item) == 3 else _item[1]
+
+    @register
+    class SizeDifference(Contract):
+        prop = "C12"
+        target = "commonroad.%s.__eq__" % (type(_short).__module__.split("commonroad.")[-1] + "." + type(_short).__name__)
+        case = "containers of different size: " + _name
+        pair = (_short, _long)
+        unroll = UNROLL
+        describe = "an object whose list / set is a strict prefix or subset of the other's is not equal to it (in either direction)"
+
+        def build(self, F):
+            return {"args": []}
+
+        def invoke(self, F, inp):
+            a, b = self.pair
+            if F.native:
+                import warnings
+
+                with warnings.catch_warnings():
+                    warnings.simplefilter("ignore")
+                    return (a == b, b == a, a != b)
+            it = F.interp
+            return (it.truth(it.compare(ast.Eq, a, b)), it.truth(it.compare(ast.Eq, b, a)), it.truth(it.compare(ast.NotEq, a, b)))
+
+        def post(self, F, inp, out):
+            yield ("comparison raises nothing", out.exc is None)
+            if out.exc is None:
+                ab, ba, ne = out.value
+                yield ("shorter == longer is False", ab is False)
+                yield ("longer == shorter is False", ba is False)
+                yield ("shorter != longer is True", ne is True)
